@@ -1188,6 +1188,9 @@ def fixed_bitfields():
         ["bf", "SB", 8, [["bit", 0], ["bit", 1], ["vec", "bv", 4, 2], ["vec", "bv", 7, 0], ["vec", "uns", 3, 0], ["vec", "sgn", 7, 5], ["bit", 7]]],
         ["bf", "OB", 10, [["sub", mid, 0, "int"], ["sub", mid, 2, "slice"], ["vec", "uns", 9, 8]]],
         ["bf", "S1", 1, [["bit", 0], ["vec", "bv", 0, 0]]],
+        # three levels, few leaves (all storage forms are exercised on every leaf): Outer[12] > Mid[6] @5 > Inner[3] @2
+        ["bf", "D3o", 12, [["vec", "bv", 3, 0], ["sub", ["bf", "D3m", 6, [["bit", 0], ["sub", ["bf", "D3i", 3, [["vec", "uns", 1, 0], ["bit", 2]]], 2, "slice"]]], 5, "int"]]],
+        ["bf", "D2o", 6, [["sub", ["bf", "D2i", 3, [["vec", "sgn", 2, 1], ["bit", 0]]], 3, "int"], ["bit", 1]]],
     ]
 
 
@@ -1226,6 +1229,31 @@ def bf_port_type(l):
     return {"bit": "Bit", "bv": f"BitVector[{l['w']}]", "uns": f"Unsigned[{l['w']}]", "sgn": f"Signed[{l['w']}]"}[l["kind"]]
 
 
+# ---- storage / qualifier forms of a BitField object.  A (nested) field must read and write exactly its declared absolute
+# range of the OUTER object's bits whatever storage the outer object has:
+#   write forms (one process per (leaf, form); the whole vector after the write is observed through `to_bits(outer)`):
+#     refvar  Ref view `TOPBF(v)` of a Variable vector v (observed: v itself)
+#     ownvar  `std.Variable[TOPBF](inp)`           (the BitField owns a Variable)
+#     vardef  `std.Variable[TOPBF]()` then `bf @= inp`
+#     fbvar   `std.from_bits[TOPBF](inp, std.Variable)`
+#     copy    `TOPBF(own)`: BitField constructed from another BitField object (a Ref view of its storage); observed: to_bits(own)
+#     ownsig  architecture-level `std.Signal[TOPBF]()`, whole + field signal assignment in a process
+#     port    Ref view `TOPBF(self.<output port>)` of an output port, whole + field signal assignment
+#   read forms (every leaf): port (Ref view of the input port), value (`std.Value[TOPBF](inp)`), sig (`std.Signal[TOPBF]()`
+#     assigned as a whole), var (`std.Variable[TOPBF](inp)`)
+BF_WRITE_FORMS = ["refvar", "ownvar", "ownsig", "vardef", "fbvar", "copy", "port"]
+BF_READ_FORMS = ["port", "value", "sig", "var"]
+BF_ALL_FORMS = False      # thorough / replay: every write form for every leaf
+
+
+def bf_write_forms(d, n):
+    """write forms exercised for leaf n of bitfield d"""
+    if BF_ALL_FORMS or len(bf_leaves(d)) <= 4:
+        return list(BF_WRITE_FORMS)
+    rest = BF_WRITE_FORMS[1:]
+    return ["refvar", rest[(2 * n) % len(rest)], rest[(2 * n + 1) % len(rest)]]
+
+
 def bf_source(d, with_entity=True):
     defs = []
     bf_defs(d, defs, set())
@@ -1235,15 +1263,55 @@ def bf_source(d, with_entity=True):
     W = d[2]
     lv = bf_leaves(d)
     ports = [f"    inp = Port.input(BitVector[{W}])", f"    rtb = Port.output(BitVector[{W}])"]
-    rd, procs = [], []
+    arch, conc, procs, rvar = [], [], [], []
+    arch.append("        sgr = std.Signal[TOPBF]()")
+    conc += ["            nonlocal sgr", "            bf = TOPBF(self.inp)", "            bv = std.Value[TOPBF](self.inp)", "            sgr <<= self.inp",
+             "            self.rtb <<= std.to_bits(std.from_bits[TOPBF](self.inp))"]
     for n, l in enumerate(lv):
-        ports += [f"    r{n} = Port.output({bf_port_type(l)})", f"    wv{n} = Port.input({bf_port_type(l)})", f"    wo{n} = Port.output(BitVector[{W}])"]
-        rd.append(f"            self.r{n} <<= bf{l['expr']}")
-        procs.append(f"        @std.sequential\n        def pw{n}():\n            v = std.Variable[BitVector[{W}]](self.inp)\n            bf = TOPBF(v)\n"
-                     f"            bf{l['expr']} @= self.wv{n}\n            self.wo{n} <<= v\n")
+        E, T = l["expr"], bf_port_type(l)
+        ports += [f"    r_port{n} = Port.output({T})", f"    r_value{n} = Port.output({T})", f"    r_sig{n} = Port.output({T})",
+                  f"    r_var{n} = Port.output({T})", f"    wv{n} = Port.input({T})"]
+        conc += [f"            self.r_port{n} <<= bf{E}", f"            self.r_value{n} <<= bv{E}", f"            self.r_sig{n} <<= sgr{E}"]
+        rvar.append(f"            self.r_var{n} <<= bvv{E}")
+        for f in bf_write_forms(d, n):
+            o = f"w_{f}{n}"
+            ports.append(f"    {o} = Port.output(BitVector[{W}])")
+            head = f"        @std.sequential\n        def p_{f}{n}():\n"
+            if f == "refvar":
+                body = [f"v = std.Variable[BitVector[{W}]](self.inp)", "b = TOPBF(v)", f"b{E} @= self.wv{n}", f"self.{o} <<= v"]
+            elif f == "ownvar":
+                body = ["b = std.Variable[TOPBF](self.inp)", f"b{E} @= self.wv{n}", f"self.{o} <<= std.to_bits(b)"]
+            elif f == "vardef":
+                body = ["b = std.Variable[TOPBF]()", "b @= self.inp", f"b{E} @= self.wv{n}", f"self.{o} <<= std.to_bits(b)"]
+            elif f == "fbvar":
+                body = ["b = std.from_bits[TOPBF](self.inp, std.Variable)", f"b{E} @= self.wv{n}", f"self.{o} <<= std.to_bits(b)"]
+            elif f == "copy":
+                body = ["own = std.Variable[TOPBF](self.inp)", "b = TOPBF(own)", f"b{E} @= self.wv{n}", f"self.{o} <<= std.to_bits(own)"]
+            elif f == "ownsig":
+                arch.append(f"        sg{n} = std.Signal[TOPBF]()")
+                conc.append(f"            self.{o} <<= std.to_bits(sg{n})")
+                body = [f"nonlocal sg{n}", f"sg{n} <<= self.inp", f"sg{n}{E} <<= self.wv{n}"]
+            elif f == "port":
+                arch.append(f"        po{n} = TOPBF(self.{o})")
+                body = [f"nonlocal po{n}", f"po{n} <<= self.inp", f"po{n}{E} <<= self.wv{n}"]
+            procs.append(head + "".join(f"            {x}\n" for x in body))
+    procs.append("        @std.sequential\n        def p_rvar():\n            bvv = std.Variable[TOPBF](self.inp)\n" + "\n".join(rvar) + "\n")
     nl = "\n"
-    return (src + "\n\nclass C17Bf(cohdl.Entity):\n" + nl.join(ports) + "\n\n    def architecture(self):\n        @std.concurrent\n        def logic():\n"
-            "            bf = TOPBF(self.inp)\n            self.rtb <<= std.to_bits(std.from_bits[TOPBF](self.inp))\n" + nl.join(rd) + "\n\n" + nl.join(procs))
+    return (src + "\n\nclass C17Bf(cohdl.Entity):\n" + nl.join(ports) + "\n\n    def architecture(self):\n" + nl.join(arch) +
+            "\n\n        @std.concurrent\n        def logic():\n" + nl.join(conc) + "\n\n" + nl.join(procs))
+
+
+def bf_outputs(d):
+    """[(port name, 'read'|'write', form, leaf index)] in the order of the simulation row"""
+    lv = bf_leaves(d)
+    out = []
+    for n in range(len(lv)):
+        for f in BF_READ_FORMS:
+            out.append((f"r_{f}{n}", "read", f, n))
+    for n in range(len(lv)):
+        for f in bf_write_forms(d, n):
+            out.append((f"w_{f}{n}", "write", f, n))
+    return out
 
 
 def field_int(kind, bits):
@@ -1251,8 +1319,48 @@ def field_int(kind, bits):
     return n - (1 << len(bits)) if kind == "sgn" and bits[0] == "1" else n
 
 
+BF_PY_FORMS = ["ctor", "from_bits", "value", "signal", "variable", "fb_signal", "copy"]
+
+
+def bf_make(T, bv, how):
+    """the storage / qualifier forms available without an entity context"""
+    from cohdl import std
+
+    if how == "ctor":
+        return T(bv)                                  # Ref view of the given vector
+    if how == "from_bits":
+        return std.from_bits[T](bv)                   # qualifier Value
+    if how == "value":
+        return std.Value[T](bv)
+    if how == "signal":
+        return std.Signal[T](bv)                      # the BitField owns a Signal initialised with bv
+    if how == "variable":
+        return std.Variable[T](bv)
+    if how == "fb_signal":
+        return std.from_bits[T](bv, std.Signal)
+    if how == "copy":
+        return T(std.Variable[T](bv))                 # constructed from another BitField object
+    raise ValueError(how)
+
+
+def bf_alias(x, f, l):
+    """'1' when the field object f is a view of the storage vector of the BitField x,
+    '0' when it lives in a different object, '?' when that cannot be told (constants, or the
+    private reference bookkeeping of cohdl changed - then nothing is claimed)"""
+    try:
+        vec = x._vec
+        root = getattr(vec, "_root", None)
+        froot = getattr(f, "_root", None)
+        if root is None or froot is None:
+            return "?"
+        return "1" if froot is root else "0"     # the position inside the storage is checked behaviourally in the compiled forms
+    except Exception:  # noqa
+        return "?"
+
+
 def bf_py_task(item):
-    """constants: BitField(vec) field reads, from_bits / to_bits / count_bits -> per pattern 'rt f0 f1 ..' (ints)"""
+    """Python level: for every storage form (BF_PY_FORMS) the value of every leaf, to_bits of the object, and whether every
+    leaf is a view of the object's own storage at the declared absolute position -> per pattern one row of tokens"""
     d, patterns = item
     import_cohdl()
     from cohdl import std, BitVector
@@ -1261,16 +1369,19 @@ def bf_py_task(item):
     T = mod.TOPBF
     lv = bf_leaves(d)
     out = {"count": int(std.count_bits(T)), "rows": []}
-    for p in patterns:
+    for j, p in enumerate(patterns):
         bv = BitVector[d[2]](p)
         row = []
-        for how in ("ctor", "from_bits"):
-            x = T(bv) if how == "ctor" else std.from_bits[T](bv)
-            for l in lv:
-                f = eval("x" + l["expr"], {"x": x})
-                row.append(str(int(bool(f)) if l["kind"] == "bit" else int_of(f) if l["kind"] != "bv" else int(bits_str(f), 2)))
-            if how == "from_bits":
+        for how in (BF_PY_FORMS if j < 8 or j % 16 == 0 else BF_PY_FORMS[:2]):
+            try:
+                x = bf_make(T, bv, how)
+                for l in lv:
+                    f = eval("x" + l["expr"], {"x": x})
+                    row.append(str(int(bool(f)) if l["kind"] == "bit" else int_of(f) if l["kind"] != "bv" else int(bits_str(f), 2)))
                 row.append(bits_str(std.to_bits(x)))
+                row.append("".join(bf_alias(x, eval("x" + l["expr"], {"x": x}), l) for l in lv).replace("?", "1"))
+            except BaseException as e:  # noqa
+                row.append(f"!{how}:{classify(e)}")
         out["rows"].append(" ".join(row))
     return out
 
@@ -1292,7 +1403,7 @@ def bf_sim_task(item):
         dsg.settle()
         g = lambda name: "-" if (x := dsg.get(name)) is None else str(int(x))
         gb = lambda name: "-" if (x := dsg.get(name)) is None else format(x, f"0{W}b")
-        out.append(" ".join([gb("rtb")] + [g(f"r{n}") for n in range(len(lv))] + [gb(f"wo{n}") for n in range(len(lv))]))
+        out.append(" ".join([gb("rtb")] + [(g if kind == "read" else gb)(name) for name, kind, f, n in bf_outputs(d)]))
     return out
 
 
@@ -1323,6 +1434,7 @@ def check_bitfields(bfs, bound, rng, n_random):
     for d, ps, wv, c, pr in zip(bfs, pats, wvals, comp, pyres):
         lv = bf_leaves(d)
         mm = []
+        seen_whats = set()
         sr = next(simres) if c["ok"] else None
         if not c["ok"]:
             mm.append(("compile", None, "-", "accepted", c["errtype"]))
@@ -1344,23 +1456,40 @@ def check_bitfields(bfs, bound, rng, n_random):
                 reads.append(str(field_int(l["kind"], rb)))
                 writes.append(wb)
             if pr is not None:
-                exp = " ".join(reads + reads + [p])
-                if pr[1]["rows"][j] != exp:
-                    e, o = exp.split(" "), pr[1]["rows"][j].split(" ")
-                    n = [a == b for a, b in zip(e, o)].index(False)
-                    what = "to_bits(from_bits(b))" if n == 2 * len(lv) else ("read (constant)" if n < len(lv) else "read (from_bits, constant)")
-                    mm.append((what, lv[n % len(lv)] if n < 2 * len(lv) else None, p, e[n], o[n]))
+                forms = BF_PY_FORMS if j < 8 or j % 16 == 0 else BF_PY_FORMS[:2]
+                e = [t for how in forms for t in reads + [p, "1" * len(lv)]]
+                o = pr[1]["rows"][j].split(" ")
+                if o != e:
+                    n = [a == b for a, b in zip(e, o)].index(False) if len(e) == len(o) else 0
+                    how, kk = forms[min(n // (len(lv) + 2), len(forms) - 1)], n % (len(lv) + 2)
+                    if len(e) != len(o):
+                        bad = [t for t in o if t.startswith("!")]
+                        mm.append((f"python construction {bad[0] if bad else ''}", None, p, "runs", bad[0] if bad else "?"))
+                    elif kk < len(lv):
+                        mm.append((f"read (python, {how})", lv[kk], p, e[n], o[n]))
+                    elif kk == len(lv):
+                        mm.append((f"to_bits (python, {how})", None, p, e[n], o[n]))
+                    else:
+                        a = o[n].index("0") if "0" in o[n] else 0
+                        mm.append((f"field is not a view of the BitField's own storage (python, {how})", lv[a], p, "view", "detached"))
             if sr is not None:
-                exp = [p] + reads + writes
+                outs = bf_outputs(d)
+                exp = [p] + [reads[n] if kind == "read" else writes[n] for name, kind, f, n in outs]
                 o = sr[1][j].split(" ")
                 if o != exp:
-                    n = [a == b for a, b in zip(exp, o)].index(False)
-                    if n == 0:
-                        mm.append(("emitted to_bits(from_bits(inp))", None, p, exp[0], o[0]))
-                    elif n <= len(lv):
-                        mm.append(("emitted read", lv[n - 1], p, exp[n], o[n]))
-                    else:
-                        mm.append(("emitted write", lv[n - 1 - len(lv)], p + " <- " + wrow[n - 1 - len(lv)], exp[n], o[n]))
+                    first = True
+                    for n in [i for i, (a, b) in enumerate(zip(exp, o)) if a != b]:
+                        if n == 0:
+                            m = ("emitted to_bits(from_bits(inp))", None, p, exp[0], o[0])
+                        else:
+                            name, kind, f, ln = outs[n - 1]
+                            m = (f"emitted read [{f}]", lv[ln], p, exp[n], o[n]) if kind == "read" else \
+                                (f"emitted write [{f}]", lv[ln], p + " <- " + wrow[ln], exp[n], o[n])
+                        # one entry per pattern, plus the first occurrence of every other kind of failing access
+                        if first or m[0] not in seen_whats:
+                            mm.append(m)
+                        seen_whats.add(m[0])
+                        first = False
         out.append(mm)
     return out, pats, srcs
 
@@ -1399,6 +1528,41 @@ def report_type_failure(ctx, level, t, mm, bound, src=None):
                            "source": entity_source(small) if level == "sim" else type_module_source(small[1] if small[0] == "ser" else small)})
 
 
+def bf_chain(d, expr):
+    """the bitfield reduced to the single chain of declarations that leads to the leaf with access expression expr"""
+    idx = [int(x[1:]) for x in expr.split(".") if x]
+    f = d[3][idx[0]]
+    if f[0] == "sub":
+        return ["bf", d[1], d[2], [["sub", bf_chain(f[1], "." + ".".join(f"g{i}" for i in idx[1:])), f[2], f[3]]]]
+    return ["bf", d[1], d[2], [f]]
+
+
+def report_bf_failure(ctx, d, mm, src, sim_bound, bound):
+    global BF_ALL_FORMS
+    BF_ALL_FORMS = True
+    pick = lambda ms: next((m for m in ms if m[0].startswith("emitted write")), next((m for m in ms if m[0].startswith("emitted")), ms[0]))
+    what, l, p, exp, obs = pick(mm)
+    if l is not None:
+        small = bf_chain(d, l["expr"])
+        try:
+            mm2, _, srcs2 = check_bitfields([small], sim_bound, __import__("random").Random(0), 24)
+            if mm2[0]:
+                d, mm, src = small, mm2[0], srcs2[0]
+                what, l, p, exp, obs = pick(mm)
+        except InfraError:
+            pass
+    if l is not None:
+        rng_txt = f"path={'/'.join(f'{o}+{w}' for o, w in l['path']) or '-'}:range={l['lo'] + l['w'] - 1}:{l['lo']}:{l['kind']}"
+    else:
+        rng_txt = "whole"
+    kinds = sorted({m[0] for m in mm})
+    ctx.report(f"bf:{what}:W={d[2]}:{rng_txt}",
+               f"BitField[{d[2]}] {what} of field {rng_txt} on {p}: declared range gives `{exp}`, the real code gives `{obs}` "
+               f"({len(mm)} differing cases for this bitfield; failing accesses: {', '.join(kinds)})",
+               {"level": "bf", "bitfield": d, "what": what, "leaf": l, "input": p, "expected": exp, "observed": obs, "failing_accesses": kinds,
+                "source": src[0], "bound": sim_bound})
+
+
 def run(ctx: Ctx):
     rng = ctx.rng
     ctx.rule = ("type compositions: a fixed list (every kind, the upstream test shapes, arrays of records with uneven field widths, "
@@ -1407,13 +1571,19 @@ def run(ctx: Ctx):
                 "width bound (python level 8 quick / 10 thorough, compiled level 6 / 8), above it zeros / ones / walking one / walking zero / random; a case = one "
                 "(type, pattern) at one level (python, compiled); non-trivial = composite type (depth >= 1) and pattern not all-0/all-1; "
                 "distinct = distinct (type shape, pattern, level).  BitFields: fixed + random declarations (nested, overlapping, "
-                "typed views), every leaf read and written for every pattern (width <= bound) with random written values.  Every value of a "
+                "typed views, nesting depth 1..3), every leaf read and written for every pattern (width <= bound) with random written values, "
+                "for every storage form of the BitField object (Ref view of a Variable / of a port, std.Variable[BF](v), std.Variable[BF]() "
+                "+ whole assignment, from_bits with a Variable qualifier, copy from another BitField, architecture-level std.Signal[BF](), "
+                "std.Value; at Python level also Signal / Variable / from_bits(.., Signal) with a view-of-own-storage check); the vector after "
+                "a write is observed through to_bits of the OUTER object.  Every value of a "
                 "type containing a record is built through every construction path (keywords in declaration order, positional, keywords "
                 "reversed / rotated, mixed positional+keyword, copy construction of a shuffled value; in compiled designs also a default-"
                 "constructed Variable with fields assigned one by one in shuffled order, T(Null), T(Full)), at every record node, and "
                 "to_bits of each must equal the same documented layout")
     global SIM_ALL_MODES
     SIM_ALL_MODES = not ctx.quick
+    global BF_ALL_FORMS
+    BF_ALL_FORMS = not ctx.quick
     bound = ctx.scale(8, 10)
     n_rand = ctx.scale(160, 700)
     maxd = ctx.scale(3, 4)
@@ -1468,23 +1638,19 @@ def run(ctx: Ctx):
     bfs = fixed_bitfields() + [bg.bf(rng.randint(2, ctx.scale(8, 10)), rng.randint(0, 2)) for _ in range(ctx.scale(9, 60))]
     bmm, bpats, bsrcs = check_bitfields(bfs, sim_bound, rng, 24)
     n_bf = 0
+    failing = []
     for d, mm, ps, src in zip(bfs, bmm, bpats, bsrcs):
         lv = bf_leaves(d)
         ctx.dist["bitfield:leaves"] += len(lv)
         ctx.dist["bitfield:nested"] += sum(1 for l in lv if l["path"])
+        ctx.dist[f"bitfield:depth:{max(len(l['path']) for l in lv) + 1}"] += 1
         for p in ps:
             ctx.case(key=("bf", json.dumps(d), p), nontrivial=("0" in p and "1" in p), kind="level:bitfield")
         n_bf += len(mm)
-        if mm and reported < 6:
-            reported += 1
-            what, l, p, exp, obs = mm[0]
-            if l is not None:
-                rng_txt = f"path={'/'.join(f'{o}+{w}' for o, w in l['path']) or '-'}:range={l['lo'] + l['w'] - 1}:{l['lo']}:{l['kind']}"
-            else:
-                rng_txt = "whole"
-            ctx.report(f"bf:{what}:W={d[2]}:{rng_txt}",
-                       f"BitField[{d[2]}] {what} of field {rng_txt} on {p}: declared range gives `{exp}`, the real code gives `{obs}` ({len(mm)} differing cases)",
-                       {"level": "bf", "bitfield": d, "what": what, "leaf": l, "input": p, "expected": exp, "observed": obs, "source": src[0], "bound": bound})
+        if mm:
+            failing.append((d, mm, src))
+    for d, mm, src in sorted(failing, key=lambda x: size_of(x[0]))[:2]:
+        report_bf_failure(ctx, d, mm, src, sim_bound, bound)
     ctx.obligation("correspondence (c): BitField field reads / writes (constants and emitted logic) = Lean readPath / writePath at the declared absolute ranges",
                    n_bf == 0, detail=f"{len(bfs)} bitfields, {sum(len(bf_leaves(d)) * len(p) for d, p in zip(bfs, bpats))} field accesses x2, {n_bf} mismatches")
     ctx.exhaustive = False
@@ -1492,8 +1658,8 @@ def run(ctx: Ctx):
 
 
 def replay(ctx, data):
-    global SIM_ALL_MODES
-    SIM_ALL_MODES = True
+    global SIM_ALL_MODES, BF_ALL_FORMS
+    SIM_ALL_MODES = BF_ALL_FORMS = True
     r = data["replay"]
     rng = __import__("random").Random(0)
     if r["level"] == "bf":
